@@ -5,7 +5,7 @@ import common
 from propbase import PropBase, model_cfg, cmp_status
 
 BOUNDARY = ["implicit_zero", "opening_only", "zero_posting", "mixed_comm", "price_same_comm", "neg_unit_price",
-            "total_sign", "unbalanced", "neg_opening"]
+            "total_sign", "unbalanced", "neg_opening", "written_cancel"]
 
 
 def sum_chain_exact(texts):
